@@ -420,13 +420,18 @@ def footer (whole rest : Bytes) : Bool :=
     let crc2 := ofLE b
     crc2 = 0 || (crc64Tab (consumed whole rest)).toNat = crc2
 
+/-- `Loader.End` (after the 8 footer bytes the input must be exhausted; D19
+    repaired: an EOF opcode met at a wrong position, followed by eight zero
+    bytes, is not the end of a snapshot). `rest` = what follows the EOF opcode. -/
+def inputEnds (rest : Bytes) : Bool := rest.length == 8
+
 /-- entries in order and whether `Done` was reached without an error entry -/
 def parseLoop (cfg : DCfg) (whole : Bytes) : Nat → LState → Bytes → List Entry × Bool
   | 0, _, _ => ([], false)
   | fuel+1, ls, bs =>
     match next cfg ls bs with
     | none => ([], false)
-    | some (none, _, rest) => ([], footer whole rest)
+    | some (none, _, rest) => ([], footer whole rest && inputEnds rest)
     | some (some e, ls', rest) =>
       let (es, ok) := parseLoop cfg whole fuel ls' rest
       (e :: es, ok)
